@@ -78,63 +78,71 @@ namespace sqf::parser::preprocessor
             // Comments will be skipped automatically.
             char next()
             {
-                char c = _next();
-                if (!is_in_string && (c == '/' || is_in_block_comment))
+                // a loop, not a recursion: any number of comments and line continuations may follow one another
+                while (true)
                 {
-                    if (c == '\n')
+                    char c = _next();
+                    if (!is_in_string && (c == '/' || is_in_block_comment))
                     {
-                        return c;
-                    }
-                    auto pc = peek();
-                    if (is_in_block_comment && c == '*' && pc == '/')
-                    {
-                        _next();
-                        is_in_block_comment = false;
-                        c = next();
-                        return c;
-                    }
-                    else if (pc == '*' || is_in_block_comment)
-                    {
-                        if (!is_in_block_comment)
+                        if (c == '\n')
+                        {
+                            return c;
+                        }
+                        auto pc = peek();
+                        if (is_in_block_comment && c == '*' && pc == '/')
                         {
                             _next();
+                            is_in_block_comment = false;
+                            continue; // the character behind the comment is read like any other
                         }
-                        is_in_block_comment = true;
-                        while ((c = _next()) != '\0')
+                        else if (pc == '*' || is_in_block_comment)
                         {
-                            if (c == '\n')
-                            {
-                                break;
-                            }
-                            else if (c == '*' && peek() == '/')
+                            if (!is_in_block_comment)
                             {
                                 _next();
-                                is_in_block_comment = false;
-                                c = next();
-                                break;
+                            }
+                            is_in_block_comment = true;
+                            bool closed = false;
+                            while ((c = _next()) != '\0')
+                            {
+                                if (c == '\n')
+                                {
+                                    break;
+                                }
+                                else if (c == '*' && peek() == '/')
+                                {
+                                    _next();
+                                    is_in_block_comment = false;
+                                    closed = true;
+                                    break;
+                                }
+                            }
+                            if (closed)
+                            { // the character behind the comment is read like any other (a quote opens a string once)
+                                continue;
                             }
                         }
+                        else if (pc == '/')
+                        {
+                            while ((c = _next()) != '\0' && c != '\n');
+                        }
                     }
-                    else if (pc == '/')
+                    if (c == '\\')
                     {
-                        while ((c = _next()) != '\0' && c != '\n');
+                        auto pc1 = peek(0);
+                        auto pc2 = peek(1);
+                        if ((pc1 == '\r' && pc2 == '\n') || pc1 == '\n')
+                        {
+                            _next();
+                            continue;
+                        }
                     }
-                }
-                if (c == '\\')
-                {
-                    auto pc1 = peek(0);
-                    auto pc2 = peek(1);
-                    if ((pc1 == '\r' && pc2 == '\n') || pc1 == '\n')
+                    if (c == '"')
                     {
-                        _next();
-                        return next();
+                        is_in_string = !is_in_string;
                     }
+                    return c;
                 }
-                if (c == '"')
-                {
-                    is_in_string = !is_in_string;
-                }
-                return c;
             }
 
             std::string get_word()
